@@ -187,6 +187,7 @@ func verifC20Publish() {
 	results := cf.PublishECH(context.Background(), targets, cl)
 	vAssert(len(results) == len(targets), "exactly one result per requested record")
 	pi := 0
+	written := map[string]string{} // record -> value stored by a successful write earlier in this call
 	for i, tg := range targets {
 		if i >= len(results) {
 			break
@@ -227,7 +228,11 @@ func verifC20Publish() {
 			vAssert(res.Code == StatusNotFound, "missing record: not found")
 		default:
 			// reference: split on single spaces, drop the ech entry, append the new one
-			toks := vSplit(rec.value)
+			value := rec.value
+			if v, ok := written[rec.zoneID+"/"+rec.id]; ok {
+				value = v // an earlier target of this call already rewrote the record
+			}
+			toks := vSplit(value)
 			var keep []string
 			old := ""
 			nOld := 0
@@ -274,6 +279,9 @@ func verifC20Publish() {
 					if k < len(keep) {
 						vAssert(others[k] == keep[k], "other parameters preserved in order")
 					}
+				}
+				if pi != failPatchAt {
+					written[rec.zoneID+"/"+rec.id] = p.value
 				}
 				if pi == failPatchAt {
 					vAssert(res.Code == StatusError && errors.Is(res.Error, errVAPI), "failed patch reported as an error carrying the API failure")
